@@ -44,6 +44,13 @@ var c16kit = []string{
 	"e := \"emb #{a[0]} mid #{1 + 2} end\"",
 	"c := ?# + 'sym",
 	"k := f(1," + nlMark + " k: 2)",
+	// tokens that end right before a line break: the bare argument `\`, `\2`, a symbol, a char literal
+	"b1 := {|x, y|" + nlMark + " \\" + nlMark + "}",
+	"b2 := [1, 2]@{" + nlMark + "\\" + nlMark + "}",
+	"b3 := {|p, q|" + nlMark + " \\2" + nlMark + "}",
+	"sy := ['s1," + nlMark + " 's2" + nlMark + "]",
+	"ch := [?a," + nlMark + " ?b" + nlMark + "]",
+	"b4 := b1(42, 0) + b3(1, 2)",
 }
 
 func c16render(tmpl string, pad func(site int) string) string {
@@ -705,6 +712,45 @@ func runC16(w *fw.W) {
 				dk[fmt.Sprintf("file|%s|%d", tk, L)] = struct{}{}
 			}
 			*sample = fmt.Sprintf("script files with %s of 100…200000 bytes: file and test-dir entry points print what the bytes print in process", tk)
+		})
+	}
+	// (5) the REPL entry point: the same session bytes give the same transcript however the reader splits them
+	// (LF and CRLF sessions, multi-line blocks, a line end falling on 1 KiB … 64 KiB offsets)
+	for _, eol := range []string{"\n", "\r\n"} {
+		eol := eol
+		runBatch(fmt.Sprintf("REPL session chunking eol=%q", eol), func(vs *violSet, dk map[string]struct{}, counters map[string]int, sample *string) {
+			rng := w.Rand()
+			for _, padTo := range []int{0, 1023, 1024, 2047, 2048, 4094, 4095, 4096, 8191, 65535} {
+				lines := []string{"multi", "xs := [1,", "  2,", "  3]", "xs.sum.p", "", "single"}
+				if padTo > 0 {
+					// a comment pads the first line so that its end falls at byte offset padTo
+					first := "1 + 1 #"
+					first += strings.Repeat("p", max(0, padTo-len(first)))
+					lines = append([]string{first}, lines...)
+				}
+				lines = append(lines, "'done.p", "[1, 2]@{|x| x * 2}", "")
+				session := strings.Join(lines, eol)
+				transcript := func(r io.Reader) string {
+					var out bytes.Buffer
+					runscript.StartREPL("", r, &out)
+					return out.String()
+				}
+				want := transcript(strings.NewReader(session))
+				if !strings.Contains(want, "6") || !strings.Contains(want, "done") || !strings.Contains(want, "[2, 4]") {
+					vs.add("C16|repl|session-not-evaluated", fmt.Sprintf("REPL session (eol %q, pad %d) read in one piece does not evaluate its lines: %s", eol, padTo, truncateMid(want, 300)), map[string]any{"eol": eol, "pad": padTo})
+					continue
+				}
+				for _, ch := range chunkers {
+					got := transcript(ch.mk(session, rng))
+					counters["repl_chunking_variants"]++
+					if got != want {
+						vs.add("C16|repl-chunking|"+ch.name, fmt.Sprintf("REPL session (eol %q, first line end at %d) read through %s: transcript differs from the one-piece read\n got: %s\nwant: %s", eol, padTo, ch.name, truncateMid(got, 300), truncateMid(want, 300)),
+							map[string]any{"eol": eol, "pad": padTo, "chunker": ch.name})
+					}
+					dk[fmt.Sprintf("repl|%q|%d|%s", eol, padTo, ch.name)] = struct{}{}
+				}
+			}
+			*sample = fmt.Sprintf("REPL sessions (eol %q) through %d chunking readers: same transcript", eol, len(chunkers))
 		})
 	}
 	_ = object.BuiltInNil
